@@ -13,7 +13,8 @@ import (
 // delivers given bytes in given chunks and then ends with io.EOF or an injected error (reported with
 // the last bytes or by a separate call).  Observed: the events yielded and the error yielded, if any.
 // The injected error is a value of any character (scriptedErr in connect.go: plain, Temporary/Timeout,
-// wrapping io.EOF / io.ErrUnexpectedEOF / a deadline error, a *net.OpError around a wrapped io.EOF);
+// wrapping io.EOF / io.ErrUnexpectedEOF / a deadline error, *net.OpError / *url.Error / *net.DNSError as a
+// network produces them, values that are or match context.DeadlineExceeded / context.Canceled);
 // whatever it looks like it is a read error and must be yielded as itself (projected by identity).
 
 func init() { families["read_c11"] = family{gen: genReadC11, exec: execReadC11} }
@@ -22,6 +23,7 @@ func execReadC11(in val.V) val.V {
 	return guard(func() val.V {
 		body := &scriptBody{data: append([]byte{}, in.At(0).Bytes()...), ending: in.At(1), chunks: in.At(2).Items(), withLast: in.At(3).Truth()}
 		events := []val.V{}
+		clear(lastBare)
 		var yielded []error
 		sse.Read(body, nil)(func(e sse.Event, err error) bool {
 			if err != nil {
@@ -61,6 +63,8 @@ func genReadC11(c *Ctx) {
 			ending = val.L(val.N(1), val.N(connErrIdx(r, c, 100)))
 		case 2: // a read error that wraps io.EOF
 			ending = val.L(val.N(1), val.N(3101))
+		default: // a read error of character e-3
+			ending = val.L(val.N(1), val.N(uint64(1000*(e-3)+102)))
 		}
 		c.Emit(val.L(val.S(body), ending, connChunks(r, len(body)), val.Bool(withLast)))
 	}
@@ -75,7 +79,7 @@ func genReadC11(c *Ctx) {
 	// endings after every byte position of short streams
 	for _, s := range []string{"data: a\n\nid: 1\n\n", "id: 5\ndata: x\r\n\r\n: c\n", "\xef\xbb\xbfretry: 1\n\ndata: y\n\n", "data: a\n\n\n", "\n", "id: 3\revent: t\r\r", "data: a\r\n\r\ndata: b\r\n"} {
 		for cut := 0; cut <= len(s); cut++ {
-			for e := 0; e < 3; e++ {
+			for e := 0; e < 3+connErrKinds; e++ {
 				c.Count("cut-sweep")
 				emit(s[:cut], e, r.Bool())
 			}
